@@ -118,17 +118,21 @@ def main(inp, outp):
                     if not any(w in ("LofQ", "LofT") for w in walk):
                         clause("converted velocity equals the time derivative of the converted position (3e-3 m/s)", err <= 3e-3,
                                "frames/kinematics", f"{walk} at {dspec} [{job['eop']}]: seven-point derivative differs by {err:.3g} m/s", data)
-        # the two precession-nutation chains agree to the accuracy of the uncorrected 1980 model
-        cols = []
-        for k in range(3):
-            e = np.zeros(6)
-            e[k] = 1.0
-            cols.append(np.asarray(StateVector(e, date, "cartesian", "GCRF").copy(frame="EME2000"), float)[:3])
-        R = np.array(cols).T
-        ang = np.degrees(np.arccos(min(1.0, (np.trace(R) - 1) / 2))) * 3600
-        res["evaluations"] += 1
-        clause("IAU-1980 and IAU-2010 chains agree within 0.1 arcsec (+0.03 arcsec frame bias)", ang <= 0.13, "frames/iau-chains",
-               f"GCRF->EME2000 through both chains rotates by {ang:.4f} arcsec at {dspec} [{job['eop']}]", {"date": dspec, "eop": job["eop"]})
+        # the two precession-nutation chains agree to the accuracy of the uncorrected 1980 model - whatever time scale the
+        # date of the state is labelled with (the same instant)
+        for scale in ("UTC", "TAI", "TT", "GPS", "UT1", "TDB"):
+            dlab = date if scale == "UTC" else date.change_scale(scale)
+            cols = []
+            for k in range(3):
+                e = np.zeros(6)
+                e[k] = 1.0
+                cols.append(np.asarray(StateVector(e, dlab, "cartesian", "GCRF").copy(frame="EME2000"), float)[:3])
+            R = np.array(cols).T
+            ang = np.degrees(np.arccos(min(1.0, (np.trace(R) - 1) / 2))) * 3600
+            res["evaluations"] += 1
+            clause("IAU-1980 and IAU-2010 chains agree within 0.1 arcsec (+0.03 arcsec frame bias)", ang <= 0.13, "frames/iau-chains",
+                   f"GCRF->EME2000 through both chains rotates by {ang:.4f} arcsec at {dspec} labelled {scale} [{job['eop']}]",
+                   {"date": dspec, "scale": scale, "eop": job["eop"]})
     res["nontrivial"] = [json.dumps(list(k)) for k in sorted(kinds)]
     with open(outp, "w") as fh:
         json.dump(res, fh)
